@@ -456,6 +456,18 @@ parse_next_record_header:
     }
     else if (innerType == SSL_RECORD_TYPE_APPLICATION_DATA)
     {
+        /* Application data is only acceptable in a protected record, and
+           only once the handshake is complete (or as early data that the
+           server has accepted). */
+        if (!DECRYPTING_RECORDS(ssl) ||
+                (ssl->hsState != SSL_HS_DONE &&
+                 ssl->hsState != SSL_HS_TLS_1_3_WAIT_EOED))
+        {
+            psTraceIntInfo("Application data in handshake state %d\n",
+                    ssl->hsState);
+            ssl->err = SSL_ALERT_UNEXPECTED_MESSAGE;
+            goto encodeResponse;
+        }
         if (ssl->hsState == SSL_HS_TLS_1_3_WAIT_EOED)
         {
             if (ssl->sec.tls13ChosenPsk != NULL &&
